@@ -77,8 +77,9 @@ var properties = map[string]propSpec{
 			{Engine: "A", Scenario: "election", Quick: 12, Thorough: 150},
 			{Engine: "A", Scenario: "stale-candidate", Quick: 4, Thorough: 40},
 			{Engine: "A", Scenario: "stale-suffix-install", Params: "seg=1024", Quick: 4, Thorough: 40},
+			{Engine: "A", Scenario: "double-failed-leadership", Quick: 8, Thorough: 80},
 		},
-		Rule:       "seeded live-cluster runs producing divergent uncommitted suffixes (isolated leaders, stalls released late, crashes) then healing; every append / reopened log / final dump is a sighting in a global (index, term) ledger; non-trivial if at least one truncation or log reset happened and at least 500 sightings were re-checked against the ledger; distinct = distinct abstract trace",
+		Rule:       "directed scenarios (two consecutive leaderships that fail before replicating leave different uncommitted entries at one index, then the holder of the older one leads; stale candidate; stale suffix under installation) and seeded live-cluster runs producing divergent uncommitted suffixes (isolated leaders, stalls released late, crashes) then healing; every append / reopened log / final dump is a sighting in a global (index, term) ledger; non-trivial if at least one truncation or log reset happened and at least 500 sightings were re-checked against the ledger; distinct = distinct abstract trace",
 		Nontrivial: all(ge("ledger-rechecks", 500)),
 		MinQuick:   16, MinThorough: 150,
 		Counters:    []string{"appends", "leader-appends", "ledger-rechecks", "truncations", "log-resets", "log-dumps", "incarnations", "leaders-elected"},
@@ -283,5 +284,40 @@ func init() {
 		MinQuick: 50000, MinThorough: 1000000,
 		Prefixes:    []string{"op:codec:", "op:truncated"},
 		Assumptions: []string{"exported wrappers in verif_codec_on.go call the unexported codec functions without altering values", "pipelined stream framing is additionally exercised end to end by the live-cluster and wire-level engines"},
+	}
+
+	properties["C12"] = propSpec{
+		Level: "exploration",
+		Plan: []planEntry{
+			{Engine: "A", Scenario: "snap-config-race", Params: "seg=1024", Quick: 14, Thorough: 160},
+			{Engine: "A", Scenario: "snapshot", Quick: 10, Thorough: 120},
+			{Engine: "A", Scenario: "member", Quick: 8, Thorough: 100},
+			{Engine: "A", Scenario: "stale-suffix-install", Params: "seg=1024", Quick: 4, Thorough: 40},
+		},
+		Rule:       "directed scenario: TakeSnapshot requested on a leader or follower and held at the start of its goroutine while a membership change commits and is applied, then released, followed by compaction, restart and catch-up of another node; plus seeded snapshot / membership runs; every snapshot file is read back when published or stored and its label compared with the committed log (index, term, newest committed configuration at or below the index; a newer membership must be a committed one); after every restart the membership is compared with log suffix / label; non-trivial if at least one label was checked against a committed configuration entry other than the bootstrap one; distinct = distinct abstract trace",
+		Nontrivial: all(ge("label-memberships-checked", 1), ge("config-entries", 4)),
+		MinQuick:   16, MinThorough: 150,
+		Counters:     []string{"snapshot-files-seen", "labels-checked", "label-memberships-checked", "config-entries", "config-commits", "fsm-restores", "graceful-restarts", "crash-restarts", "compactions"},
+		Prefixes:     []string{"snapshot-installs:"},
+		SampleTopics: []string{"snapshot"},
+		Assumptions:  stdAssumptions,
+	}
+	properties["C15"] = propSpec{
+		Level: "exploration",
+		Plan: []planEntry{
+			{Engine: "A", Scenario: "everything", Quick: 16, Thorough: 200},
+			{Engine: "A", Scenario: "everything", Quick: 8, Thorough: 100, Race: true},
+			{Engine: "A", Scenario: "double-install", Params: "seg=1024", Quick: 4, Thorough: 40, Race: true},
+			{Engine: "A", Scenario: "double-install", Params: "seg=1024", Quick: 4, Thorough: 40},
+			{Engine: "A", Scenario: "snapshot", Quick: 4, Thorough: 60, Race: true},
+			{Engine: "A", Scenario: "member", Quick: 4, Thorough: 60, Race: true},
+		},
+		Rule:       "seeded live-cluster runs mixing client tasks, admin tasks, snapshots, compactions over 1-4 KiB segments, transfers, membership changes, partitions, stalls, restarts and hard crashes, in plain and in race-detector builds (which also enable checkptr); directed: two followers behind a compaction brought back at once; unmapped segments are quarantined so stale reads fault; judged: child process died (panic / fatal error / signal), Serve returned anything but ErrServerClosed / ErrNodeRemoved, a data race report (deduplicated by the pair of accessing functions), a submitted task not done after all nodes were shut down, Shutdown not returning; non-trivial if the run handled at least 300 client operations and 8 faults; distinct = distinct abstract trace",
+		Nontrivial: all(ge("client-ops", 300), ge("faults", 4)),
+		MinQuick:   20, MinThorough: 200,
+		Counters:    []string{"race-runs", "client-ops", "shutdowns", "serve-exits", "serve-exits-node-removed", "faults", "crashes", "snapshots-taken", "compactions", "log-resets", "transfers-succeeded", "config-entries", "leaders-elected"},
+		Prefixes:    []string{"snapshot-installs:", "admin:"},
+		Par:         8,
+		Assumptions: append([]string{"race detector and checkptr see only the interleavings the runs produce"}, stdAssumptions...),
 	}
 }
